@@ -71,7 +71,8 @@ def step (d : DSt) (n : Nat) (ln : Line) : DSt × List String :=
     let m := peek d.st
     let now := o.map urlOfEntry
     let cov := if m == d.snap then "COV peek.unchanged" else "COV peek.changed"
-    (d, diff n ln (m.map entryTok) ++ judgeOut n (heldJudge d.snap d.delSince now) (String.intercalate "," o) ++ [cov])
+    let cov2 := if d.delSince.isEmpty then [] else ["COV peek.after-del"]
+    (d, diff n ln (m.map entryTok) ++ judgeOut n (heldJudge d.snap d.delSince now) (String.intercalate "," o) ++ [cov] ++ cov2)
   | "conc" =>
     -- concurrent adders on a fresh volume: the model runs the ATOMIC steps (any order gives the same set)
     let ents : List Loc := (a.drop 1).map fun e => match e.splitOn "@" with
